@@ -101,8 +101,10 @@ LIB: Dict[str, Dict[str, Any]] = {
     "VNoneDefaultProbe": dict(kind="probe", params=[("tag", None)], inp="Float", fn=lambda d, tag: {"tag": tag, "d": d}),
     "VCtxWriteOp": dict(kind="operation", params=[("w", NODEF)], inp="Float", out="Float", writes=["w_key"],
                         fn=None),
+    "VLongTailOp": dict(kind="operation", params=[], inp="Float", out="Float", writes=["long_key"], fn=None),
     "VUndeclaredWriteOp": dict(kind="operation", params=[], inp="Float", out="Float", fn=None),
     "VRaiseOp": dict(kind="operation", params=[("kind", "value")], inp="Float", out="Float", fn=None),
+    "VInitFaultOp": dict(kind="operation", params=[], inp="Float", out="Float", fn=lambda d: d),
     "VNestedParamOp": dict(kind="operation", params=[("opts", NODEF)], inp="Float", out="Float",
                            fn=lambda d, opts: _must_float(d * float(
                                (opts.get("k", 1.0) if isinstance(opts, dict) else 1.0)
@@ -353,6 +355,9 @@ def _elem_apply(name: str, base: Dict[str, Any], d: float, vals: Dict[str, Any],
         prod = _leaf(lambda: d * w)
         ctx["w_key"] = prod
         return _leaf(lambda: _must_float(d + w))
+    if name == "VLongTailOp":
+        ctx["long_key"] = [1.0] * 80 + [d]
+        return d
     if name == "VUndeclaredWriteOp":
         raise MFail("UNDECLARED", "KeyError", "sneaky")
     if name == "VRaiseOp":
